@@ -93,7 +93,25 @@ fn main() {
             // including LOCK files held by cases running on other worker threads, which would make their locks
             // outlive them for an instant
             std::env::set_var("VERIF_JOBS", "1");
-            run_model(vec![(skv_verif::engine_lock::c19(), 1200, 24000)], tier, replay)
+            use skv_verif::engine_sched::{sched_prop, Flavor};
+            let findings = Findings::load();
+            let main = skv_verif::engine_lock::c19();
+            let sched = sched_prop("C19", Flavor::C19);
+            if let Some(p) = replay {
+                let text = std::fs::read_to_string(&p).unwrap_or_default();
+                if text.contains("\"actors\"") {
+                    std::process::exit(replay_one(&sched, &p, &findings));
+                }
+                std::process::exit(replay_one(&main, &p, &findings));
+            }
+            let seed = seed_from_env();
+            let t0 = Instant::now();
+            let mut rep = Report::default();
+            run_replays(&main, &findings, &mut rep);
+            rep.merge(run_prop(&main, cases_for(tier, 1200, 24000), seed, 0, &findings));
+            rep.merge(run_prop(&sched, cases_for(tier, 600, 12000), seed, 1, &findings));
+            let rule = format!("{} || SECOND STREAM ({})", main.rule, sched.rule);
+            finish(main.id, main.level, tier, seed, &rule, &main.assumptions, &rep, t0.elapsed().as_secs_f64(), &findings)
         }
         "C16" => run_model(vec![(skv_verif::engine_corrupt::c16(40), 160, 3200), (skv_verif::engine_corrupt::c16(600), 6, 240)], tier, replay),
         "C18" => run_model(vec![(skv_verif::fmt_bptree::c18(60, false), 4000, 60000), (skv_verif::fmt_bptree::c18(300, false), 300, 6000), (skv_verif::fmt_bptree::c18(60, true), 400, 6000)], tier, replay),
